@@ -109,6 +109,7 @@ CONTROLS = {
     "C14": [
         ("R1: `?` on the WAL fsync replaced by a drop", [("nomt::bitbox::writeout::write_wal", neutralise_call("Try>::branch", 3, "core::mem::drop"))], "R1|bitbox::writeout::write_wal"),
         ("R2: `?` on the completion result neutralised", [("nomt::bitbox::writeout::write_ht", neutralise_call("Try>::branch", 0, "core::mem::drop"))], "R2|bitbox::writeout::write_ht"),
+        ("R6: classification of the syscall result neutralised", [("nomt::io::platform::run_worker", neutralise_call("IoKind::get_result"))], "R6|"),
         ("R4: poisoning store neutralised", [("nomt::store::Store::commit", neutralise_call("::store"))], "R4|store::Store::commit"),
     ],
     "C15": [
